@@ -6,7 +6,7 @@ PROP = {
         {"tag": "c09", "bin": "c09"},
         # caller programs compiled separately (harness/src/bin/gcall.rs): the operations used from code generic over the
         # lengths / element type with exactly the published impl bounds, and with plain method syntax (direct oracles)
-        {"tag": "c09call", "bin": "gcall", "args": ["--prop", "C09"], "model": False},
+        {"tag": "c09call", "bin": "gcall", "no_default_features": True, "args": ["--prop", "C09"], "model": False},
         # the same cases with the bin rebuilt under AddressSanitizer (nightly): an out-of-bounds read whose
         # value is discarded gives the right answer and is only visible as an aborted case
         {"tag": "c09-asan", "bin": "c09", "args": ["--sanitize"], "expect_cases": False, "timeout": 1500},
